@@ -290,4 +290,5 @@ def run_unit(desc):
         "unsupported": h.unsupported,
         "spec_validation": [],
         "bounded": [],
+        "replayable": {"runner": "ownrun.py", "module": "-", "name": "reactivex/observable/observable.py"},
     }
